@@ -6,8 +6,8 @@ hook = subprocess.run(['git', '-C', '/repo', 'log', '--format=%h', '--grep', 've
 
 TIE = {
  'C01': 'T1 (ast of the real compiler output = model compiler) + T2 three-way: real engine = model of compiled code = reference semantics on generated programs/queries + T2p: real engine = the queried predicate interpreted from its printed Python text by the model of Python + T2q: CPython = the model of Python on generated scripts of the emitted subset + T5: an independent textbook Prolog interpreter on comparable histories',
- 'C02': 'T3: engine.unify vs model unify vs an independent Robinson unifier on generated term pairs under active bindings',
- 'C03': 'T2 at every abandonment point (close / drop / raising consumer) with the Variable weak-set hook; answers re-run',
+ 'C02': 'T3: engine.unify vs model unify vs an independent Robinson unifier on generated term pairs (incl. Python values as constants) under active bindings; unification objects created before they are started or obtained from the terms\' own unify method; alternatives tried under open unifications',
+ 'C03': 'T2 at every abandonment point (close / drop / raising consumer / exception thrown into the generator) with the Variable weak-set hook; answers re-run; queries ended by the recursion limit',
  'C04': 'T0 table sharedStateSites = [] regenerated from engine.py; real multi-engine interleavings (alternating, generator-step zig-zag, threads) vs solo runs; suspended queries of one engine stepped in zig-zag vs alone; T2 per solo history',
  'C05': 'T1 + T2 + T2p (+ T5: independent textbook interpreter) on programs with cuts in transparent positions',
  'C06': 'T1 + T2 + T2p on programs nesting ; -> \\+ with continuations (incl. generate-and-test conditions that re-enter nested blocks); parenthesisation variants; T2q: CPython = the model of Python on generated scripts of the emitted subset; T5: independent textbook interpreter',
